@@ -30,7 +30,12 @@ def run(prog, chk):
     m = sim['measure']
     amp = R.amp_field
     q = m.params[0]
-    info = analyse_measure_like(prog, m, amp, q, sp, KS, KP)
+    try:
+        info = analyse_measure_like(prog, m, amp, q, sp, KS, KP)
+    except PartialSweep as e:
+        chk.ob('R02.1', m, e.ln or m.ln, False, '%s: probabilities and the collapse must range over the whole state vector (a partial sum used as p1 mis-scales the collapsed state)' % e,
+               key='p1-accumulation')
+        return
     p1 = info['p1sym']
     # R02.1
     acc = info['acc']
@@ -132,6 +137,12 @@ def _range_test(ce, qt, vec):
     return not any(c.isalpha() for c in rest.replace('cast', '').replace('int', ''))
 
 
+class PartialSweep(Exception):
+    def __init__(self, msg, ln):
+        Exception.__init__(self, msg)
+        self.ln = ln
+
+
 def analyse_measure_like(prog, m, amp, q, sp, KS, KP):
     """Walk the top-level statements of a measure-shaped function and extract its ingredients."""
     info = {'p1_init_zero': False, 'bit_is_1_shl_q': False, 'dist_ok': False, 'draw_ok': False, 'res_ok': False, 'returns_res': False,
@@ -187,6 +198,9 @@ def analyse_measure_like(prog, m, amp, q, sp, KS, KP):
     l1 = KP.full_state_loop(loops[0], amp)
     l2 = KP.full_state_loop(loops[-1], amp)
     if l1 is None or l2 is None:
+        why = [KP.partial_state_loop(l, amp) for l, x in ((loops[0], l1), (loops[-1], l2)) if x is None]
+        if all(why):
+            raise PartialSweep('%s: the sweep over the state vector %s' % (m.short, ' / '.join(why)), (loops[0] if l1 is None else loops[-1]).get('ln'))
         raise AnalysisBroken('%s: loops are not full-range loops over the state vector' % m.short)
     info['loop1_ln'] = loops[0].get('ln')
     info['loop2_ln'] = loops[-1].get('ln')
